@@ -953,6 +953,99 @@ static void run_packet(Block &b, vh::Rng &r, uint64_t caseid, bool sample, const
   }
 }
 
+
+// ---------------------------------------------------------------------------
+// Symmetric lines.  The block, the start and the direction are bitwise invariant under the exchange of two (or of all
+// three) axes: same anchor, side, cell count, start coordinate and direction component in those axes, homogeneous
+// contents.  The straight line then crosses the block boundary exactly ON the edge (corner) shared by those axes -- not
+// merely within rounding of it -- and every step of a march that treats the axes alike sees bitwise equal wall
+// distances.  For these lines the generic clause's allowance "a face is acceptable when the edge is within 2 delta" does
+// not apply: the class has to name all symmetric axes or none of them.
+static const uint64_t SYM_BASE = 1000000000ull;
+
+static void run_symmetric(vh::Rng &r, const uint64_t caseid) {
+  const int m = 1 + (int)r.below(6);
+  const int nA = r.chance(0.35) ? 3 : 2;
+  int inA[3] = {1, 1, 1};
+  int third = -1;
+  if (nA == 2) { third = (int)r.below(3); inA[third] = 0; }
+  static const double scales[3] = {1., 3.0856775814913674e16, 1e-5};
+  const double S = scales[r.below(3)];
+  const double a = S * r.uniform(-5., 5.), l = S * r.uniform(0.3, 3.);
+  double anchor[3], L[3];
+  int n[3];
+  for (int d = 0; d < 3; ++d) { anchor[d] = a; L[d] = l; n[d] = m; }
+  if (third >= 0) { anchor[third] = S * r.uniform(-5., 5.); L[third] = S * r.uniform(0.3, 3.); n[third] = 1 + (int)r.below(6); }
+  double box[6] = {anchor[0], anchor[1], anchor[2], L[0], L[1], L[2]};
+  DensitySubGrid grid(box, CoordinateVector< int_fast32_t >(n[0], n[1], n[2]));
+  const double Lmax = std::max(L[0], std::max(L[1], L[2]));
+  const double dens = r.chance(0.2) ? 0. : r.loguniform(1e-3, 10.) / (1e-22 * Lmax);
+  for (auto it = grid.begin(); it != grid.end(); ++it) {
+    IonizationVariables &iv = it.get_ionization_variables();
+    iv.set_number_density(dens);
+    for (int ion = 0; ion < NUMBER_OF_IONNAMES; ++ion) iv.set_ionic_fraction(ion, 0.5);
+  }
+  grid.reset_intensities();
+  // start: the same coordinate in the symmetric axes (interior point, or an interior cell corner / cell centre line)
+  const double cs = l / m;
+  double rel;
+  const int pk = (int)r.below(3);
+  if (pk == 0 && m > 1) rel = (double)(1 + (int)r.below(m - 1)) * cs;
+  else if (pk == 1) rel = ((double)r.below(m) + 0.5) * cs;
+  else rel = l * r.uniform(0.02, 0.98);
+  const double pA = a + rel;
+  if (!(pA > a) || !(pA < a + (double)m * cs)) { st.inc("symmetric_skipped"); return; }
+  const double sgn = r.chance(0.5) ? 1. : -1.;
+  double v[3], pabs[3];
+  for (int d = 0; d < 3; ++d) { v[d] = sgn; pabs[d] = pA; }
+  if (third >= 0) {
+    v[third] = r.chance(0.3) ? 0. : r.uniform(-0.4, 0.4);
+    pabs[third] = anchor[third] + L[third] * r.uniform(0.05, 0.95);
+  }
+  PhotonPacket ph;
+  ph.set_direction(CoordinateVector<>(v[0], v[1], v[2]));
+  ph.set_position(CoordinateVector<>(pabs[0], pabs[1], pabs[2]));
+  for (int ion = 0; ion < NUMBER_OF_IONNAMES; ++ion) ph.set_photoionization_cross_section(ion, 1e-22);
+  ph.set_weight(1.); ph.set_energy(1e16); ph.set_type(PHOTONTYPE_PRIMARY); ph.set_scatter_counter(0);
+  ph.set_target_optical_depth(1e300);
+  double dir[3];
+  for (int d = 0; d < 3; ++d) dir[d] = ph.get_direction()[d];
+  int first = -1;
+  for (int d = 0; d < 3; ++d) if (inA[d]) { if (first < 0) first = d; else if (vh::bits(dir[d]) != vh::bits(dir[first])) { st.inc("symmetric_skipped"); return; } }
+  // exit parameters of the straight line, from the doubles handed to the code
+  const LD SdA = ((sgn > 0. ? (LD)l : 0.L) - ((LD)pA - (LD)a)) / (LD)dir[first];
+  LD Sd3 = INFINITY;
+  if (third >= 0 && dir[third] != 0.) Sd3 = ((dir[third] > 0. ? (LD)L[third] : 0.L) - ((LD)pabs[third] - (LD)anchor[third])) / (LD)dir[third];
+  const LD margin = 64 * EPS * ((LD)l + std::fabs(a)) / std::fabs(dir[first]) +
+                    (third >= 0 && dir[third] != 0. ? 64 * EPS * ((LD)L[third] + std::fabs(anchor[third])) / std::fabs(dir[third]) : 0.L);
+  const bool clear = SdA + margin < Sd3;   // the symmetric edge/corner is reached well before the third axis' boundary
+  st.inc("symmetric_cases");
+  if (clear) st.inc(nA == 3 ? "symmetric_lines_through_a_block_corner" : "symmetric_lines_through_a_block_edge");
+  char desc[600];
+  std::snprintf(desc, sizeof desc, "symmetric axes {%s%s%s} n=%d,%d,%d anchor=%a,%a,%a L=%a,%a,%a pos=%a,%a,%a dir=%a,%a,%a",
+                inA[0] ? "x" : "", inA[1] ? "y" : "", inA[2] ? "z" : "", n[0], n[1], n[2], anchor[0], anchor[1], anchor[2], L[0], L[1], L[2],
+                pabs[0], pabs[1], pabs[2], dir[0], dir[1], dir[2]);
+  static const char *rname[3] = {"interact", "propagate", "compute_optical_depth"};
+  for (int which = 0; which < 3; ++which) {
+    PhotonPacket q = ph;
+    const int out = which == 0 ? (int)grid.interact(q, TRAVELDIRECTION_INSIDE)
+                               : which == 1 ? (int)grid.propagate(q, TRAVELDIRECTION_INSIDE) : (int)grid.compute_optical_depth(q, TRAVELDIRECTION_INSIDE);
+    if (out < 0 || out >= 27) { VH_VIOL("exit/class", caseid, "%s returned the invalid class %d | %s", rname[which], out, desc); continue; }
+    const int *os = BYID[out]->s;
+    int nz = 0, wrongsign = 0;
+    for (int d = 0; d < 3; ++d) if (inA[d] && os[d] != 0) { ++nz; if ((double)os[d] != sgn) ++wrongsign; }
+    if (nz != 0 && nz != nA) {
+      VH_VIOL("exit/class", caseid, "%s: left through %s, which names %d of the %d axes that are bitwise symmetric in this case: the line crosses their common edge/corner exactly | %s",
+              rname[which], BYID[out]->name, nz, nA, desc);
+    } else if (clear && (nz != nA || wrongsign)) {
+      VH_VIOL("exit/class", caseid, "%s: left through %s, but the line reaches the %s of the symmetric axes at s=%.17Lg, before the third axis' boundary (%.17Lg) | %s",
+              rname[which], BYID[out]->name, nA == 3 ? "corner" : "edge", SdA, Sd3, desc);
+    } else if (clear) {
+      st.inc("symmetric_exits_confirmed");
+    }
+  }
+}
+
 static double HX(const char *t) { return std::strtod(t, nullptr); } // hex floating literals are not C++11
 
 int main(int argc, char **argv) {
@@ -1018,6 +1111,14 @@ int main(int argc, char **argv) {
       if (only >= 0 && (uint64_t)only != caseid) continue;
       run_packet(b, rp, caseid, caseid < 3 || only >= 0);
     }
+  }
+  const uint64_t nsym = npackets / 10 + 1;
+  for (uint64_t is = 0; is < nsym; ++is) {
+    const uint64_t caseid = SYM_BASE + is;
+    if (only >= 0 && (uint64_t)only != caseid) continue;
+    vh::Rng rs = master.fork(caseid);
+    g_case = caseid;
+    run_symmetric(rs, caseid);
   }
   st.print();
   std::printf("DONE violations=%" PRIu64 "\n", vh::g_nviol);
